@@ -1,7 +1,11 @@
 """C14 — each file opens with exactly its own family's opener; others refuse cleanly.
 
 proof side : lean/SarpyModel/Props/C14.lean over lean/SarpyModel/Spec/Opener.lean (decision model of the openers,
-             `_find_sicd`, `_find_sidd`, the cascade, writer models; all DES lists / image counts, no bounds)
+             `_find_sicd`, `_find_sidd`, the cascade, writer models; all DES lists / image counts, no bounds);
+             lean/SarpyModel/Props/C14Vendor.lean over Spec/OpenerVendor.lean (every registered is_a as a guard table over the
+             observations of its argument, the full trial loops for any registration order, NITF 2.0 containers)
+translator : translate/gen_openers.py regenerates the guard tables, registration orders, trial-loop shapes and the order of
+             sarpy.io.open from the AST of /repo (Gen/Openers.lean); Bridge/Openers.lean proves them equal to the specified ones
 tie        : correspondence - for every real file the harness extracts the descriptor itself (magic bytes, NITF header
              and subheaders parsed out-of-band, DES ids, XML root tags), asks the Lean driver what every opener decides, and
              compares with what each real entry point does (path and, where documented, open binary file object); the
